@@ -103,17 +103,18 @@ Definition agree (c : case) : bool :=
       c_ok1 c
       && option_eqb config_eqb (Some cfg0) (c_parsed c)
       && (let r1 := lookups cfg0 (c_vals c) (c_fbfee c) (c_fbgas c) in
-          list_eqb outcome_eqb (fst r1) (c_out1 c)
-          && list_eqb outcome_eqb (fst r1) (c_shown c)
+          list_eqb outcome_eqb r1 (c_out1 c)
+          && list_eqb outcome_eqb r1 (c_shown c)
           && match c_marshalled c with
              | None => false
              | Some m =>
-                 json_eqb (canon (marshal (snd r1))) (canon m)
+                 (* the lookups left the configuration as it was *)
+                 json_eqb (canon (marshal cfg0)) (canon m)
                  && match unmarshal m with
                     | None => negb (c_ok2 c)
                     | Some cfg2 =>
                         c_ok2 c
-                        && list_eqb outcome_eqb (fst (lookups cfg2 (c_vals c) (c_fbfee c) (c_fbgas c))) (c_out2 c)
+                        && list_eqb outcome_eqb (lookups cfg2 (c_vals c) (c_fbfee c) (c_fbgas c)) (c_out2 c)
                     end
              end)
   end.
